@@ -4,6 +4,7 @@ From AV Require Import Lib.Base Generated.ServerGen Model.ServerConn.
 Import ListNotations.
 Open Scope N_scope.
 Ltac Zify.zify_post_hook ::= Z.to_euclidean_division_equations.
+Ltac spl := repeat match goal with |- _ /\ _ => split end.
 
 (* ---- what the proofs need from the generated constants and comparisons ---------------------- *)
 Lemma maxq_pos : 0 < maxq. Proof. reflexivity. Qed.
@@ -59,7 +60,7 @@ Proof.
         -- apply IH in H; [|lia]. destruct H as (H1 & H2 & H3). repeat split; try lia.
            destruct r as [l|]; [|exact I]. destruct H3 as (new & -> & Hn & Ha & Ht).
            exists (QMsg m :: new). cbn [rev]. rewrite <- app_assoc. cbn [app nmsgs].
-           unfold all_msgs in *. rewrite lenN_cons. cbn [nmsgs]. repeat split; try lia; try reflexivity. exact Ht.
+           unfold all_msgs in *. rewrite lenN_cons. cbn [nmsgs]. repeat split; try lia; try reflexivity.
         -- apply IH in H; [|lia]. exact H.
         -- inversion H; subst; clear H. cbn [p_infl]. repeat split; try lia.
     + destruct it as [m| |k].
@@ -112,11 +113,11 @@ Proof.
   inversion H; subst; clear H.
   destruct r as [l|].
   - destruct E3 as (nw & -> & Hn & Ha & Ht). cbn [rev app] in *.
-    exists nw, p'. repeat split; try lia.
+    exists nw, p'. spl; try lia; try reflexivity.
     + destruct nw; [reflexivity|discriminate].
     + destruct nw; [intro F; now elim F|reflexivity].
-    + right. repeat split; try assumption; lia.
-  - exists [QErr], p'. cbn [nmsgs]. repeat split; try lia; try discriminate.
+    + right. spl; try assumption; lia.
+  - exists [QErr], p'. cbn [nmsgs]. spl; try lia; try discriminate; try reflexivity.
     left; reflexivity.
 Qed.
 
@@ -127,10 +128,14 @@ Lemma feed_core k s new s' w :
 Proof.
   intros H [C1 C2 C3] B. apply feed_shape in H; [|exact C1].
   destruct H as (msgs & p' & -> & Hw & _ & Hp & Hn & _).
-  cbn. repeat split; cbn; try assumption; try reflexivity.
-  - intro Hp0. apply orb_false_iff in Hp0 as [_ Hf]. now apply proto_full_false.
-  - unfold Bal in *. cbn. rewrite nmsgs_app. lia.
-  - intro E. rewrite (Hw E). apply app_nil_r.
+  split.
+  { split; cbn.
+    - exact Hp.
+    - intro Hp0. apply orb_false_iff in Hp0 as [_ Hf]. now apply proto_full_false.
+    - exact C3. }
+  split.
+  { unfold Bal in *. cbn. rewrite nmsgs_app. lia. }
+  cbn. spl; try reflexivity. intro E. rewrite (Hw E). apply app_nil_r.
 Qed.
 
 Lemma resume_q_core k s : Core s -> Bal k s ->
@@ -140,36 +145,20 @@ Proof.
   intros C B. unfold resume_q.
   assert (H : exists s1, (if forcef s then s else fst (feed s [])) = s1 /\ Core s1 /\ Bal k s1 /\ pc s1 = pc s /\
                          closed s1 = closed s /\ forcef s1 = forcef s /\ ka s1 = ka s).
-  { destruct (forcef s).
-    - exists s. repeat split; assumption.
+  { destruct (forcef s) eqn:F.
+    - exists s. spl; auto.
     - destruct (feed s []) as [s1 w] eqn:E. exists s1. cbn [fst].
-      destruct (feed_core k _ _ _ _ E C B) as (H1 & H2 & H3 & H4 & H5 & H6 & _). repeat split; assumption. }
+      destruct (feed_core k _ _ _ _ E C B) as (H1 & H2 & H3 & H4 & H5 & H6 & _). spl; auto; congruence. }
   destruct H as (s1 & -> & [C1 C2 C3] & B1 & P1 & P2 & P3 & P4).
+  assert (C' : Core s1) by (split; assumption).
   destruct (proto_stays_paused (lenN (q s1)) maxq) eqn:E.
-  - repeat split; assumption.
-  - apply stays_false in E. repeat split; cbn; try assumption. intros _. exact E.
+  - spl; auto.
+  - apply stays_false in E. split; [|split; [exact B1|cbn; spl; assumption]].
+    split; cbn; try assumption. intros _. exact E.
 Qed.
 
 Lemma Core_do_close s : Core s -> Core (do_close s).
 Proof. intros [C1 C2 C3]. split; cbn; auto. Qed.
-
-Lemma exit_loop_inv s : Core s -> Bal 1 s -> Inv (exit_loop s).
-Proof.
-  intros C B. unfold exit_loop. destruct (forcef s) eqn:F.
-  - destruct C as [C1 C2 C3]. split; cbn; try discriminate.
-    + split; cbn; assumption.
-    + exact B.
-    + intros _. congruence.
-  - pose proof (Core_do_close _ C) as C'. split; cbn; try discriminate.
-    + exact C'.
-    + exact B.
-    + reflexivity.
-Qed.
-
-Lemma arm_ka_frame c s : q (arm_ka c s) = q s /\ ps (arm_ka c s) = ps s /\ paused (arm_ka c s) = paused s /\
-  pc (arm_ka c s) = pc s /\ forcef (arm_ka c s) = forcef s /\ closed (arm_ka c s) = closed s /\ ka (arm_ka c s) = ka s /\
-  out (arm_ka c s) = out s.
-Proof. unfold arm_ka. cbn. repeat split. Qed.
 
 Lemma Core_frame s s' : q s' = q s -> ps s' = ps s -> paused s' = paused s -> forcef s' = forcef s -> closed s' = closed s ->
   Core s -> Core s'.
@@ -177,6 +166,24 @@ Proof. intros Hq Hp Hpa Hf Hc [C1 C2 C3]. split; rewrite ?Hq, ?Hp, ?Hpa, ?Hf, ?H
 
 Lemma Bal_frame k s s' : q s' = q s -> ps s' = ps s -> Bal k s -> Bal k s'.
 Proof. unfold Bal. intros -> ->. auto. Qed.
+
+Lemma exit_loop_inv s : Core s -> Bal 1 s -> Inv (exit_loop s).
+Proof.
+  intros C B. unfold exit_loop. destruct (forcef s) eqn:F.
+  - split; cbn [pc set_pc bonus]; try discriminate.
+    + eapply Core_frame; [..|exact C]; reflexivity.
+    + eapply Bal_frame; [..|exact B]; reflexivity.
+    + intros _. cbn. destruct C as [C1 C2 C3]. congruence.
+  - pose proof (Core_do_close _ C) as C'. split; cbn [pc set_pc bonus]; try discriminate.
+    + eapply Core_frame; [..|exact C']; reflexivity.
+    + eapply Bal_frame; [..|exact B]; reflexivity.
+    + reflexivity.
+Qed.
+
+Lemma arm_ka_frame c s : q (arm_ka c s) = q s /\ ps (arm_ka c s) = ps s /\ paused (arm_ka c s) = paused s /\
+  pc (arm_ka c s) = pc s /\ forcef (arm_ka c s) = forcef s /\ closed (arm_ka c s) = closed s /\ ka (arm_ka c s) = ka s /\
+  out (arm_ka c s) = out s.
+Proof. unfold arm_ka. cbn. spl; reflexivity. Qed.
 
 Lemma loop_top_inv s : Core s -> Bal 0 s -> Inv (loop_top s).
 Proof.
@@ -198,8 +205,8 @@ Proof.
       assert (H : exists s2, (if paused s1 && proto_resume_mark (lenN q') resume_mark then resume_q s1 else s1) = s2 /\
                              Core s2 /\ Bal (bonus_cur it) s2).
       { destruct (paused s1 && proto_resume_mark (lenN q') resume_mark).
-        - exists (resume_q s1). destruct (resume_q_core _ _ C1 B1) as (H1 & H2 & _). repeat split; assumption.
-        - exists s1. repeat split; assumption. }
+        - exists (resume_q s1). destruct (resume_q_core _ _ C1 B1) as (H1 & H2 & _). spl; auto.
+        - exists s1. spl; auto. }
       destruct H as (s2 & -> & C2 & B2).
       split; cbn; try discriminate.
       * eapply Core_frame; [..|exact C2]; reflexivity.
@@ -299,25 +306,15 @@ Lemma deliver_inv s tits : Inv s -> Inv (deliver s tits).
 Proof.
   intros [C B W X]. unfold deliver. destruct (feed s tits) as [s1 w] eqn:E.
   destruct (feed_core _ _ _ _ _ E C B) as (C1 & B1 & P & Hc & Hf & Hk & Hq).
-  destruct (pc s1) eqn:P1.
-  - destruct w.
-    + apply loop_top_inv; [exact C1|]. rewrite <- P, P1 in B1. exact B1.
-    + split; try assumption.
-      * rewrite P1. rewrite <- P, P1 in B1. exact B1.
-      * intros _. rewrite (Hq eq_refl). apply W. congruence.
-      * rewrite P1. discriminate.
-  - split; try assumption.
-    + rewrite P1. rewrite <- P, P1 in B1. exact B1.
-    + rewrite P1; discriminate.
-    + rewrite P1; discriminate.
-  - split; try assumption.
-    + rewrite P1. rewrite <- P, P1 in B1. exact B1.
-    + rewrite P1; discriminate.
-    + rewrite P1; discriminate.
-  - split; try assumption.
-    + rewrite P1. rewrite <- P, P1 in B1. exact B1.
-    + rewrite P1; discriminate.
-    + intros _. rewrite Hc. apply X. congruence.
+  assert (I1 : w = false -> Inv s1).
+  { intro Hw. split; [exact C1|rewrite P; exact B1|rewrite P, (Hq Hw); exact W|rewrite P, Hc; exact X]. }
+  assert (I2 : pc s1 <> PWait -> Inv s1).
+  { intro Hn. split; [exact C1|rewrite P; exact B1|intro E0; contradiction|rewrite P, Hc; exact X]. }
+  assert (B0 : pc s1 = PWait -> Bal 0 s1).
+  { intro E0. rewrite <- P, E0 in B1. exact B1. }
+  destruct (pc s1) eqn:P1; try (apply I2; discriminate).
+  destruct w; [|apply I1; reflexivity].
+  apply loop_top_inv; [exact C1|]. apply B0; reflexivity.
 Qed.
 
 Lemma Inv_frame s s' : q s' = q s -> ps s' = ps s -> paused s' = paused s -> forcef s' = forcef s -> closed s' = closed s ->
@@ -342,7 +339,7 @@ Proof.
   - destruct (pc s1) eqn:P; try exact I1.
     destruct I1 as [C B W X]. split; cbn; try discriminate.
     + apply Core_do_close in C. eapply Core_frame; [..|exact C]; reflexivity.
-    + unfold Bal in *. cbn. rewrite P in B. cbn in B. lia.
+    + unfold Bal in *. cbn. try rewrite P in B. cbn in B. lia.
     + reflexivity.
 Qed.
 
@@ -350,7 +347,7 @@ Lemma fire_linger_inv c s : Inv s -> Inv (fire_linger c s).
 Proof.
   intro I. unfold fire_linger. destruct (pc s) eqn:P; try exact I.
   destruct (until <=? now s); [|exact I].
-  destruct I as [C B W X]. rewrite P in B. cbn in B.
+  destruct I as [C B W X]. try rewrite P in B. cbn in B.
   apply after_req_inv; [exact C| |intros _; exact B]. eapply Bal_mono; [|exact B]. lia.
 Qed.
 
@@ -364,12 +361,12 @@ Proof.
     destruct (closed s); [discriminate|]. inversion H; subst; clear H.
     destruct I as [C B W X]. split; cbn; try discriminate.
     + eapply Core_frame; [..|exact C]; reflexivity.
-    + rewrite P in B. exact B.
+    + try rewrite P in B. exact B.
   - destruct (pc s) as [|cur st| |] eqn:P; try discriminate. inversion H; subst; clear H.
-    destruct I as [C B W X]. rewrite P in B. apply on_done_inv; assumption.
+    destruct I as [C B W X]. try rewrite P in B. apply on_done_inv; assumption.
   - inversion H; subst; clear H. destruct (closed s); [exact I|]. apply deliver_inv; exact I.
   - inversion H; subst; clear H. destruct (pc s) as [| |m until|] eqn:P; try exact I.
-    destruct I as [C B W X]. pose proof B as B'. rewrite P in B'. cbn in B'.
+    destruct I as [C B W X]. pose proof B as B'. try rewrite P in B'. cbn in B'.
     assert (A : Inv (after_req c s false)).
     { apply after_req_inv; [exact C| |intros _; exact B']. eapply Bal_mono; [|exact B']. lia. }
     destruct (incomplete s m); [|exact A].
@@ -383,24 +380,24 @@ Proof.
     destruct (pc s) eqn:P.
     + split; cbn; try discriminate.
       * apply Core_do_close in C. eapply Core_frame; [..|exact C]; reflexivity.
-      * unfold Bal in *. cbn. rewrite P in B. cbn in B. lia.
+      * unfold Bal in *. cbn. try rewrite P in B. cbn in B. lia.
       * reflexivity.
     + split; cbn; rewrite ?P; try discriminate.
       * apply Core_do_close; exact C.
-      * rewrite P in B. exact B.
+      * try rewrite P in B. exact B.
     + split; cbn; rewrite ?P; try discriminate.
       * apply Core_do_close; exact C.
-      * rewrite P in B. exact B.
+      * try rewrite P in B. exact B.
     + split; cbn; rewrite ?P; try discriminate.
       * apply Core_do_close; exact C.
-      * rewrite P in B. exact B.
+      * try rewrite P in B. exact B.
       * reflexivity.
 Qed.
 
 Lemma init_inv : Inv init.
 Proof.
   split.
-  - split; cbn; try reflexivity; try lia. intros _. apply maxq_pos.
+  - split; cbn; try reflexivity; try lia.
   - unfold Bal. cbn. lia.
   - reflexivity.
   - discriminate.
@@ -434,13 +431,13 @@ Proof. intros R. destruct (reach_inv _ _ R) as [[C1 C2 C3] B W X]. exact C2. Qed
 Theorem never_orphaned c s : Reach c s ->
   (closed s = false -> pc s <> PExit) /\ (pc s = PWait -> q s = []) /\ forcef s = closed s.
 Proof.
-  intro R. destruct (reach_inv _ _ R) as [[C1 C2 C3] B W X]. repeat split; try assumption.
+  intro R. destruct (reach_inv _ _ R) as [[C1 C2 C3] B W X]. spl; try assumption.
   intros Hc Hp. rewrite (X Hp) in Hc. discriminate.
 Qed.
 
 (* a queued parse error is answered by whatever the application does with it, and then the loop ends:
    every way the handler of an _ErrInfo request can end closes the connection *)
-Theorem err_request_closes c s st o s' : Reach c s -> pc s = PHandler QErr st ->
+Theorem err_request_closes c s sd o s' : Reach c s -> pc s = PHandler QErr sd ->
   step c s (EDone o) = Some s' -> pc s' = PExit /\ closed s' = true.
 Proof.
   intros R P H. destruct (reach_inv _ _ R) as [[C1 C2 C3] B W X].
@@ -451,18 +448,18 @@ Proof.
   { intros t f Ht Hk. unfold after_req. rewrite Hk. cbn [andb]. apply EX; exact Ht. }
   assert (FF : forall t stt status k, forcef t = closed t ->
              pc (finish_fresh c t QErr stt status k) = PExit /\ closed (finish_fresh c t QErr stt status k) = true).
-  { intros t stt status k Ht. unfold finish_fresh. destruct (closed t) eqn:Ct; [apply EX; exact Ht|].
-    cbn [payload_check]. apply AR; [destruct stt; cbn; exact Ht|]. cbn [ka set_ka]. apply close_of_err_ka. }
+  { intros t stt status k Ht. unfold finish_fresh. destruct (closed t) eqn:Ct; [apply EX; congruence|].
+    cbn [payload_check]. apply AR; [destruct stt; cbn; congruence|]. cbn [ka set_ka]. apply close_of_err_ka. }
   unfold on_done. destruct o as [keep status| |status| | | | ].
   - apply FF; exact C3.
-  - destruct st.
+  - destruct sd.
     + destruct (closed s) eqn:Cs; [apply EX; cbn; congruence|]. cbn [payload_check]. apply AR; [cbn; congruence|reflexivity].
     + cbn [payload_check]. apply AR; [cbn; congruence|reflexivity].
   - apply FF; exact C3.
-  - destruct st; [apply EX; cbn; congruence|apply FF; exact C3].
-  - destruct st; [apply EX; cbn; congruence|apply FF; exact C3].
-  - apply EX. destruct st; reflexivity.
-  - cbn [payload_check]. apply AR; [destruct st; cbn; congruence|reflexivity].
+  - destruct sd; [apply EX; cbn; congruence|apply FF; exact C3].
+  - destruct sd; [apply EX; cbn; congruence|apply FF; exact C3].
+  - apply EX. destruct sd; reflexivity.
+  - cbn [payload_check]. apply AR; [destruct sd; cbn; congruence|reflexivity].
 Qed.
 
 (* ... and when the application answers it the way web.Application does (HTTPBadRequest raised by the
